@@ -3,9 +3,11 @@
 (* Bounded model of the binding API (C10): a constructive transcription of *)
 (* hwloc/bind.c (CheckFlags -> FixSet -> Dispatch), of the dummy hooks and *)
 (* of the Linux hooks on top of an abstract kernel.  Every transition is   *)
-(* checked against the oracle relation Bind!Rel, and emitted as a          *)
-(* behaviour (path to the source state + the call) for replay on the real  *)
-(* library.  Sets are sets of abstract atoms:                              *)
+(* checked against the oracle relation Bind!Rel (StepOK) and emitted as    *)
+(* an edge [configuration, source, destination, call] of the state graph;  *)
+(* tools/props/c10.py turns the graph into transition tours (histories of  *)
+(* this model that take every emitted transition) which are replayed on    *)
+(* the real library.  Sets are sets of abstract atoms:                     *)
 (*   CPUs  1..4 chosen PUs, 5 rest of the topology, 6 in the complete set  *)
 (*         only (disallowed), 7 outside the complete set, 8 the infinite   *)
 (*         tail, 9 CPUs only the kernel knows about;                       *)
